@@ -42,6 +42,7 @@ pub mod wm;
 pub mod split;
 pub mod rank;
 pub mod reg;
+pub mod store_gen;
 pub mod hl;
 pub mod tok;
 pub mod norm;
@@ -63,6 +64,7 @@ pub fn registry() -> Vec<(&'static str, fn())> {
     v.extend_from_slice(split::ALL);
     v.extend_from_slice(rank::ALL);
     v.extend_from_slice(reg::ALL);
+    v.extend_from_slice(store_gen::ALL);
     v.extend_from_slice(hl::ALL);
     v.extend_from_slice(tok::ALL);
     v.extend_from_slice(norm::ALL);
